@@ -122,8 +122,7 @@ func (pq *plotterQueue) Reset() {
 }
 
 func (sk *SpaceKeeper) spacePlotter() {
-	sk.wg.Add(1)
-	defer sk.wg.Done()
+	defer sk.wg.Done() // sk.wg.Add(1) is done by OnStart
 
 	var wg sync.WaitGroup
 
